@@ -526,7 +526,7 @@ fn main() {
     if args.miri {
         let mut rng = Rng::new(mix(args.seed, 1, 0));
         let nops = args.max_cases.unwrap_or(rng.range(200, 400) as u64);
-        let pool = *rng.pick(&[10usize, 16, 24]);
+        let pool = *rng.pick(&[24usize, 32, 48]);
         let hseed = mix(args.seed, 2, 0);
         let res = run_history(hseed, nops, pool, 8);
         rep.extra_num("max_members", res.maxlen);
